@@ -744,10 +744,14 @@ pub trait Doc: Serialize + Deserialize + Canon + Gen + Send + Sync + 'static {
     fn variants(_r: &mut Rng, _size: usize) -> Vec<Self> {
         Vec::new()
     }
+    /// For documents whose Drop records (tag, checksum): what a drop of this value must record.
+    fn drop_probe(&self) -> Option<(u64, u64)> {
+        None
+    }
 }
 
 macro_rules! doc_impl {
-    ($name:ident, $t:ty $(, variants = $vf:expr)? $(, escape = $ef:expr)?) => {
+    ($name:ident, $t:ty $(, variants = $vf:expr)? $(, escape = $ef:expr)? $(, probe = $pf:expr)?) => {
         impl CaseObj for EpsObj<$t> {
             fn canon(&self, out: &mut Vec<u8>) {
                 let d: &DeserType<'static, $t> = &self.0;
@@ -796,6 +800,10 @@ macro_rules! doc_impl {
             $(fn variants(r: &mut Rng, size: usize) -> Vec<Self> {
                 let f: fn(&mut Rng, usize) -> Vec<Self> = $vf;
                 f(r, size)
+            })?
+            $(fn drop_probe(&self) -> Option<(u64, u64)> {
+                let f: fn(&Self) -> Option<(u64, u64)> = $pf;
+                f(self)
             })?
         }
     };
@@ -891,6 +899,6 @@ registry! {
     PaddedVecU64: Padded<Vec<u64>>;
     PaddedZ32: Padded<Vec<Z32>>;
     PaddedStr: Padded<String>;
-    DropProbeD: DropProbe<Vec<u64>>;
+    DropProbeD: DropProbe<Vec<u64>> { probe = |v| Some((v.tag, probe_sum(&v.data))) };
 }
 
